@@ -5,6 +5,7 @@ use std::io::Write as _;
 use std::panic::{catch_unwind, AssertUnwindSafe};
 
 pub mod problems;
+pub mod templates;
 
 /// SplitMix64 — the only source of generator decisions (independent of the `rand` crate).
 #[derive(Clone)]
